@@ -18,6 +18,7 @@ func init() {
 var lexFragments = []string{
 	"a", "foo", "let", "function", "return", "if", "else", "while", "for", "true", "false", "null", "letx", "$", "_", "x1",
 	"0", "1", "42", "3.14", "1e5", "1E+5", "2e-3", "1e", "1e+", "0x", "0xFF", "0XaB", "0b101", "0b2", "0o17", "0o8", "1.", ".5", "1..2", "007", "1.5.2",
+	"1.e3", "1.E-2", "1.e", "1.x", "1..x", "1 .x", "1.5.x", "0x1.x", "1.toString()", "0.", "00.", "12.e+", "1.+2",
 	"=", "==", "===", "!", "!=", "<", "<=", ">", ">=", "&", "&&", "|", "||", "+", "++", "+=", "-", "--", "-=", "*", "/", "%", ",", ";", ":", ".",
 	"(", ")", "{", "}", "[", "]", " ", "  ", "\t", "\n", "\r", "\r\n", "\n\n",
 	"//", "// c", "//c \n", "// trailing   \n", "/", "/*", "/* x */",
